@@ -1,60 +1,280 @@
 /-
 C06 — Headers and data do not depend on how entry bodies are consumed.
 
-This file holds the theorems about the *prediction* used by the `cons` engine
-(`LA.ReadObs.predictCons`: what the record of a run with an arbitrary per-entry
-consumption vector must be, given the all-read reference run).  The model of
-`archive_read_data` over zero-copy blocks and its theorems live in
-LA/Props/C06 as well once `LA.Model.ReadData` is present (see DESIGN.md).
+The theorems are about `LA.RD` (lean/LA/Model/ReadData.lean), the model of
+`archive_read_data`, `archive_read_data_block`, `archive_read_data_skip`,
+`__archive_reset_read_data` and `_archive_read_next_header2` of
+libarchive/archive_read.c over a *scripted* format reader; engine `rdd` checks
+the model against the real functions.  The format reader's side of the property
+(its blocks have increasing, non-overlapping offsets within the entry size; its
+skip lands where reading everything lands) is an assumption here, written as
+`WellFormed` / `CleanEntry`, and is tested on the real readers by engine `cons`.
+
+* `read_data_bounded`            never more than `s` bytes are written, whatever the script
+* `read_data_dense`              any buffer sizes: the results are the dense image (leading,
+                                 interior and trailing holes zero-filled) cut at the buffer sizes;
+                                 exactly all of it once a call returns 0
+* `read_data_buffer_independent` two buffer-size sequences give the same bytes
+* `read_data_within_size`        never more than the entry's size
+* `retry_iff_disorder`           ARCHIVE_RETRY exactly when a block below the output offset is needed
+* `read_data_progress`           a zero return means a scripted result was used up or the script is at EOF
+* `skip_then_header_eq_read_then_header`, `headers_independent_of_consumption`
+                                 the next header (status and complete handle state, hence the entry
+                                 returned and every byte read from it later) is the same after any
+                                 consumption history of the earlier bodies
 -/
 import LA.Model.ReadObs
+import LA.Lemmas.ReadDataSeq
 namespace LA.C06
-open LA.ReadObs
+open LA.RD
 
-theorem predictEnt_header (e : Ent) (c : String) :
-    (predictEnt e c).hst = e.hst ∧ (predictEnt e c).md = e.md ∧ (predictEnt e c).bare = e.bare := by
-  unfold predictEnt
-  split
-  · exact ⟨rfl, rfl, rfl⟩
-  · split
-    · exact ⟨rfl, rfl, rfl⟩
-    · split
-      · exact ⟨rfl, rfl, rfl⟩
-      · split
-        · exact ⟨rfl, rfl, rfl⟩
-        · split <;> exact ⟨rfl, rfl, rfl⟩
+/-! ### Bounds -/
 
-/-- The prediction keeps the number and order of entries, every header status and
-every metadata digest, and the archive-level statuses, for every consumption
-vector: only body fields of entries that are not read in full may change. -/
-theorem predictCons_headers (r : Rec) (cons : List String) :
-    (predictCons r cons).ents.length = r.ents.length ∧
-    (predictCons r cons).ents.map (fun e => (e.hst, e.md)) = r.ents.map (fun e => (e.hst, e.md)) ∧
-    (predictCons r cons).openSt = r.openSt ∧ (predictCons r cons).final = r.final ∧
-    (predictCons r cons).tail = r.tail := by
-  refine ⟨by simp [predictCons, zipIdx], ?_, rfl, rfl, rfl⟩
-  simp only [predictCons, zipIdx, List.map_map]
-  have : ∀ (l : List Ent) (k : Nat),
-      (l.zip (List.range' k l.length)).map ((fun e => (e.hst, e.md)) ∘ fun x => predictEnt x.1 (cycle cons x.2)) =
-      l.map (fun e => (e.hst, e.md)) := by
-    intro l
-    induction l with
-    | nil => intro k; simp
-    | cons a t ih =>
-      intro k
-      simp only [List.length_cons, List.range'_succ, List.zip_cons_cons, List.map_cons, Function.comp]
-      rw [(predictEnt_header a _).1, (predictEnt_header a _).2.1]
-      congr 1
-      exact ih (k + 1)
-  have h := this r.ents 0
-  rw [List.range_eq_range']
-  exact h
+/-- **`archive_read_data` never writes more than `s` bytes** — for every handle
+state and every script, well-formed or not, including the bytes written before
+an error status is returned. -/
+theorem read_data_bounded (h : H) (s : Nat) : (readData h s).1.written.length ≤ s := by
+  obtain ⟨⟨add, ha, hl⟩, _⟩ := readLoop_frame h s []
+  unfold readData; rw [ha]; simpa using hl
 
-/-- Entries read in full (by `read_data` with any buffer sizes or by
-`read_data_block`) are predicted to be exactly the reference entries. -/
-theorem predictEnt_full (e : Ent) (c : String) (h : c = "A" ∨ c = "a" ∨ c = "B" ∨ c.startsWith "R" = true) :
-    predictEnt e c = e := by
-  unfold predictEnt
-  rcases h with rfl | rfl | rfl | h <;> simp [*]
+/-- Non-vacuity: a 3-byte block at offset 2, buffer of 4: 2 zero bytes and 2 data bytes. -/
+example : (readData { state := .data, evs := [evOfBlock (2, [7, 8, 9])] } 4).1 = .ok [0, 0, 7, 8] := by
+  simp [readData, readLoop, step, fetch, dataBlock, store, padCopy, padLen, evOfBlock]
+
+/-! ### The dense image -/
+
+/-- One call on an error-free script, in any state of advancement: it returns the
+next `s` bytes of what is pending, fewer only when the data ends. -/
+theorem read_data_exact (h : H) (bl : List Block) (hi : Inv h bl) (ho : (pend h bl).2 = .eof) (s : Nat) :
+    ∃ h' bl', Inv h' bl' ∧ readData h s = (.ok ((pend h bl).1.take s), h') ∧
+      pend h' bl' = ((pend h bl).1.drop s, .eof) := by
+  obtain ⟨h', bl', hi', hr, hp⟩ := readLoop_spec h s [] bl hi
+  refine ⟨h', bl', hi', ?_, by rw [hp, ho]⟩
+  unfold readData; rw [hr]; simp [ho]
+
+/-- **`read_data_dense`.**  For every well-formed block list and EVERY sequence of
+buffer sizes, the successive `archive_read_data` calls all succeed and return
+the dense image cut at the buffer sizes; so their concatenation is a prefix of
+the dense image, namely its first `sizes.sum` bytes; and if the calls are
+continued until one returns 0 (buffers of at least one byte), it is the whole
+dense image, trailing hole included. -/
+theorem read_data_dense (h : H) (bl : List Block) (t : Option Int) (hf : Fresh h bl t)
+    (hw : WellFormed bl t) (sizes : List Nat) :
+    (readSeq h sizes).1 = (chunks (dense bl t) sizes).map Ret.ok ∧
+    ((readSeq h sizes).1.map Ret.written).flatten = (dense bl t).take sizes.sum ∧
+    ((∀ s ∈ sizes, 1 ≤ s) → Ret.ok [] ∈ (readSeq h sizes).1 →
+      ((readSeq h sizes).1.map Ret.written).flatten = dense bl t) := by
+  have hi := hf.inv hw.2
+  have hp := hf.pend
+  have ho : (pend h bl).2 = .eof := by rw [hp]; exact (image_eof_iff 0 bl t).mpr hw.1
+  obtain ⟨h', bl', _, _, hr, _⟩ := readSeq_spec h bl hi ho sizes
+  have hd : (pend h bl).1 = dense bl t := by rw [hp]; rfl
+  rw [hd] at hr
+  have hm : ((chunks (dense bl t) sizes).map Ret.ok).map Ret.written = chunks (dense bl t) sizes := by
+    have : (Ret.written ∘ Ret.ok) = id := rfl
+    rw [List.map_map, this, List.map_id]
+  refine ⟨by rw [hr], by rw [hr]; simp only [hm]; exact chunks_flatten _ _, ?_⟩
+  intro h1 h2
+  rw [hr] at h2 ⊢
+  simp only [hm]
+  apply chunks_complete _ _ h1
+  simpa using h2
+
+/-- Non-vacuity: a handle at the start of such an entry. -/
+example : Fresh { state := .data, evs := [(2, [5, 6]), (6, [7]), (9, [])].map evOfBlock, term := { off := some 11 } }
+    [(2, [5, 6]), (6, [7]), (9, [])] (some 11) := ⟨rfl, rfl, rfl, rfl, rfl, rfl⟩
+
+/-- Non-vacuity: leading hole, interior hole, empty block, trailing hole reported with EOF. -/
+example : WellFormed [(2, [5, 6]), (6, [7]), (9, [])] (some 11) := by
+  refine ⟨⟨by decide, by decide, by decide, trivial⟩, ?_⟩
+  intro t' ht; cases ht; decide
+
+example : dense [(2, [5, 6]), (6, [7]), (9, [])] (some 11) = [0, 0, 5, 6, 0, 0, 7, 0, 0, 0, 0] := by decide
+
+/-- **Buffer sizes do not matter.**  Two clients reading the same well-formed entry
+with different buffer-size sequences get bytes of which one is a prefix of the
+other; the same bytes if they ask for the same total, and the same bytes — the
+dense image — if both go on until a call returns 0. -/
+theorem read_data_buffer_independent (h : H) (bl : List Block) (t : Option Int) (hf : Fresh h bl t)
+    (hw : WellFormed bl t) (sizes₁ sizes₂ : List Nat) :
+    let b₁ := ((readSeq h sizes₁).1.map Ret.written).flatten
+    let b₂ := ((readSeq h sizes₂).1.map Ret.written).flatten
+    (b₁ <+: b₂ ∨ b₂ <+: b₁) ∧
+    (sizes₁.sum = sizes₂.sum → b₁ = b₂) ∧
+    ((∀ s ∈ sizes₁, 1 ≤ s) → (∀ s ∈ sizes₂, 1 ≤ s) → Ret.ok [] ∈ (readSeq h sizes₁).1 →
+      Ret.ok [] ∈ (readSeq h sizes₂).1 → b₁ = b₂) := by
+  obtain ⟨_, a2, a3⟩ := read_data_dense h bl t hf hw sizes₁
+  obtain ⟨_, c2, c3⟩ := read_data_dense h bl t hf hw sizes₂
+  refine ⟨?_, ?_, ?_⟩
+  · rw [a2, c2]
+    by_cases hle : sizes₁.sum ≤ sizes₂.sum
+    · left; exact List.take_prefix_take_left hle
+    · right; exact List.take_prefix_take_left (by omega)
+  · intro e; rw [a2, c2, e]
+  · intro h1 h2 h3 h4; rw [a3 h1 h3, c3 h2 h4]
+
+/-- **Never more than the entry's size**: when the blocks stay within the entry's
+size (and so does the end offset reported with EOF), all the bytes
+`archive_read_data` can ever deliver for the entry number at most `size`. -/
+theorem read_data_within_size (bl : List Block) (t : Option Int) (size : Nat) (hw : WellFormed bl t)
+    (hb : endCursor 0 bl ≤ size) (ht : ∀ t', t = some t' → t' ≤ size) :
+    (dense bl t).length ≤ size := by
+  have := image_length 0 bl t hw.1 hw.2
+  unfold dense
+  cases t with
+  | none => simp at this; omega
+  | some t' => have := ht t' rfl; simp at *; omega
+
+example : (dense [(2, [5, 6]), (6, [7]), (9, [])] (some 11)).length ≤ 11 := by decide
+
+/-! ### Out-of-order blocks -/
+
+/-- **ARCHIVE_RETRY exactly on disorder.**  On an error-free script (every format
+result is an OK block, then EOF) in any state of advancement:
+* the only error `archive_read_data` can return is ARCHIVE_RETRY;
+* it returns it exactly when the call needs a block whose offset is below the
+  output offset: the pending bytes end in a disorder and the buffer is larger
+  than what can be delivered before it;
+* at the start of an entry, "the pending bytes end in a disorder" is "the block
+  offsets are not increasing / overlap". -/
+theorem retry_iff_disorder (h : H) (bl : List Block) (hi : Inv h bl) (s : Nat) :
+    (∀ e l, (readData h s).1 = .err e l → e = .retry) ∧
+    ((∃ l, (readData h s).1 = .err .retry l) ↔
+      ((pend h bl).2 = .disorder ∧ (pend h bl).1.length < s)) := by
+  obtain ⟨h', bl', _, hr, _⟩ := readLoop_spec h s [] bl hi
+  unfold readData
+  rw [hr]
+  by_cases hc : s ≤ (pend h bl).1.length ∨ (pend h bl).2 = .eof
+  · simp only [hc, if_true]
+    refine ⟨fun e l x => (by cases x), ⟨fun ⟨l, x⟩ => (by cases x), fun ⟨x, y⟩ => ?_⟩⟩
+    rcases hc with hc | hc
+    · omega
+    · rw [hc] at x; cases x
+  · simp only [hc, if_false]
+    refine ⟨fun e l x => (by injection x with x _; exact x.symm), ⟨fun _ => ?_, fun _ => ⟨_, rfl⟩⟩⟩
+    have h1 : ¬ s ≤ (pend h bl).1.length := fun x => hc (Or.inl x)
+    have h2 : (pend h bl).2 ≠ .eof := fun x => hc (Or.inr x)
+    refine ⟨?_, by omega⟩
+    cases hx : (pend h bl).2 with
+    | eof => exact absurd hx h2
+    | disorder => rfl
+
+/-- The same at the start of an entry, in terms of the block list itself: the call
+returns ARCHIVE_RETRY exactly when the offsets are not increasing / the blocks
+overlap, and the buffer is larger than the dense image of the blocks before the
+first offending one. -/
+theorem retry_iff_disorder_fresh (h : H) (bl : List Block) (t : Option Int) (hf : Fresh h bl t)
+    (hend : ∀ t', t = some t' → endCursor 0 bl ≤ t') (s : Nat) :
+    (∃ l, (readData h s).1 = .err .retry l) ↔ (¬ Ordered 0 bl ∧ (dense bl t).length < s) := by
+  rw [(retry_iff_disorder h bl (hf.inv hend) s).2, hf.pend, ← image_eof_iff 0 bl t]
+  unfold dense
+  cases (image 0 bl t).2 <;> simp
+
+/-- Non-vacuity: the second block overlaps the first. -/
+example : (readData { state := .data, evs := [evOfBlock (0, [1, 2, 3]), evOfBlock (2, [9])] } 4).1
+    = .err .retry [1, 2, 3] := by
+  simp [readData, readLoop, step, fetch, dataBlock, store, padCopy, padLen, evOfBlock]
+example : (readData { state := .data, evs := [evOfBlock (0, [1, 2, 3]), evOfBlock (2, [9])] } 3).1
+    = .ok [1, 2, 3] := by
+  simp [readData, readLoop, step, fetch, dataBlock, store, padCopy, padLen, evOfBlock]
+
+/-! ### Progress -/
+
+/-- **Callers' loops terminate.**  For every handle and script: a call with a
+non-empty buffer that returns 0 has used up at least one scripted result, or the
+script is already at its end-of-data terminal.  (Otherwise it returns at least
+one byte or a negative status.) -/
+theorem read_data_progress (h : H) (s : Nat) (hs : 1 ≤ s) (h' : H)
+    (hr : readData h s = (.ok [], h')) :
+    h'.evs.length < h.evs.length ∨ (h.evs = [] ∧ h.term.st = .eof) := by
+  have := readLoop_progress h s [] hs
+  unfold readData at hr
+  rw [hr] at this
+  rcases this with ⟨e, l, x⟩ | x | x | x
+  · cases x
+  · simp [Ret.written] at x
+  · left; exact x
+  · right; exact x
+
+set_option maxRecDepth 4096 in
+example : (readData { state := .data, evs := [evOfBlock (0, [])] } 5).1 = .ok [] := by
+  simp [readData, readLoop, step, fetch, dataBlock, store, padCopy, padLen, evOfBlock, TSt.toSt]
+
+/-! ### Skipping and the next header -/
+
+/-- **`skip_then_header_eq_read_then_header`.**  On an error-free body, whatever was
+read before (any number of `archive_read_data` calls with any buffer sizes,
+`archive_read_data_block` calls, in any mix):
+* `archive_read_data_skip` succeeds, leaves nothing of the body's script and the
+  same script position as skipping at once;
+* `_archive_read_next_header2` returns the same status and leaves the complete
+  handle in the same state as if nothing had been read, with or without an
+  explicit skip in between. -/
+theorem skip_then_header_eq_read_then_header (h : H) (he : ErrFree h) (hk : HookOk h) (acts : List Act) :
+    (dataSkip (runActs h acts)).1 = .ok ∧
+    (dataSkip (runActs h acts)).2.evs = [] ∧
+    (dataSkip (runActs h acts)).2.evpos = (dataSkip h).2.evpos ∧
+    nextHeader (runActs h acts) = nextHeader h ∧
+    nextHeader (dataSkip (runActs h acts)).2 = nextHeader h := by
+  have f := runActs_frame h acts
+  have e1 := dataSkip_clean (he.frame f) (hk.frame f)
+  have e2 := dataSkip_clean he hk
+  refine ⟨by rw [e1], by rw [e1]; rfl, by rw [e1, e2]; exact f.pos, ?_, ?_⟩
+  · exact nextHeader_consume he hk { acts := acts, skip := false }
+  · exact nextHeader_consume he hk { acts := acts, skip := true }
+
+/-- Non-vacuity: an error-free body with a hole, no skip hook. -/
+example : ErrFree { state := .data, evs := [evOfBlock (0, [1]), evOfBlock (5, [2, 3])] } ∧
+    HookOk { state := .data, evs := [evOfBlock (0, [1]), evOfBlock (5, [2, 3])] } :=
+  ⟨⟨rfl, ⟨[(0, [1]), (5, [2, 3])], rfl⟩, rfl⟩, Or.inl rfl⟩
+
+/-- **Every body starts from a clean slate.**  Whatever was done with the previous
+body (`Boundary`: nothing yet, anything inside an error-free body, an explicit
+skip), the header of a well-formed entry is returned with status OK and the
+`read_data_*` members reset, so that the dense-image theorems above apply to it
+(`Fresh`). -/
+theorem next_header_starts_fresh (h : H) (hb : Boundary h) (e : Entry) (rest : List Entry)
+    (hg : h.entries = e :: rest) (hc : CleanEntry e) (bl : List Block) (hbl : e.evs = bl.map evOfBlock) :
+    (nextHeader h).1 = .ok ∧ (nextHeader h).2.entryObj = some (h.nread, e.size) ∧
+    Fresh (nextHeader h).2 bl e.term.off := by
+  have key : ∀ g : H, g.entries = e :: rest → g.nread = h.nread →
+      (headerStep g).1 = .ok ∧ (headerStep g).2.entryObj = some (h.nread, e.size) ∧
+      Fresh (headerStep g).2 bl e.term.off := by
+    intro g hge hnr
+    refine ⟨(headerStep_clean hge hc).1, ?_, headerStep_fresh hge hc.1 hbl hc.2.2.1⟩
+    unfold headerStep headerRest readHeader
+    simp only [hge, hc.1, hnr]
+  rcases hb with hs | ⟨he, hk⟩
+  · rw [nextHeader_header hs]; exact key _ hg rfl
+  · rw [nextHeader_data he hk]; exact key _ hg rfl
+
+/-- **Headers do not depend on how bodies are consumed.**  For an archive all of
+whose entries are well-formed, two clients that consume the bodies in any two
+ways (per entry: any reads with any buffer sizes, zero-copy block reads, nothing
+at all, an explicit skip or not) see, at every `archive_read_next_header` call,
+the same status and the same complete handle state — so the same entry, and the
+same bytes for whatever either of them reads from that entry. -/
+theorem headers_independent_of_consumption (h : H) (hb : Boundary h)
+    (hc : ∀ e ∈ h.entries, CleanEntry e) (cs₁ cs₂ : List Consumption)
+    (hl : cs₁.length = cs₂.length) (hn : cs₁.length ≤ h.entries.length) :
+    session h cs₁ = session h cs₂ :=
+  session_eq cs₁ cs₂ h h hl hn rfl hc hb hb rfl
+
+/-- Non-vacuity: a freshly opened archive of two well-formed entries (one with a
+trailing hole and a skip hook) satisfies the hypotheses; hence reading the first
+body in 1-byte pieces and block-reading then skipping the second shows the same
+headers as touching nothing. -/
+example :
+    let es : List Entry := [{ size := 4, evs := [evOfBlock (1, [7])], term := { off := some 4 }, hook := some .ok },
+                            { size := 2, evs := [evOfBlock (0, [8, 9])] }]
+    session (openH es) [{ acts := [.read 1, .read 1, .read 1, .read 1, .read 1] }, { acts := [.block], skip := true }]
+      = session (openH es) [{}, {}] := by
+  intro es
+  refine headers_independent_of_consumption _ (Or.inl rfl) ?_ _ _ (by rfl) (by simp [es, openH])
+  intro e he
+  simp only [es, openH, List.mem_cons, List.mem_nil_iff, or_false] at he
+  rcases he with rfl | rfl
+  · exact ⟨rfl, ⟨[(1, [7])], rfl⟩, rfl, Or.inr (Or.inl rfl)⟩
+  · exact ⟨rfl, ⟨[(0, [8, 9])], rfl⟩, rfl, Or.inl rfl⟩
 
 end LA.C06
